@@ -44,7 +44,7 @@ ASSUMPTIONS = [
     "simulation adds is the schedule quantifier (sample index k <-> patch index k under every completion order)",
     "per-patch pair counts themselves are taken from the sequential run of the real kernels (C01 is not claimed)",
 ]
-PROBES = ["imap_completion_out_of_order", "landy_szalay", "davis_peebles", "nan_bins", "redshiftdata_with_auto", "redshiftdata_with_unk_auto"]
+PROBES = ["imap_completion_out_of_order", "landy_szalay", "davis_peebles", "nan_bins", "redshiftdata_with_auto", "redshiftdata_with_unk_auto", "exactly_zero_leave_one_out_normalisation"]
 REAL_VS_STUB = dict(
     real="yaw measurements, paircounts/corrfunc/corrdata/redshifts algebra, trees, numpy einsum",
     stub="multiprocessing.Pool (sim.fakemp), _num_processes",
@@ -206,6 +206,29 @@ def evaluate(case: dict, ref: dict, got: dict, cache_ref: dict) -> tuple[dict | 
             if np.isnan(data).any() or np.isnan(samples).any():
                 probes["nan_bins"] = 1
             g = got[f"{kind}.sample"][i]
+            # a leave-one-out normalisation that is *exactly* zero (weights are dyadic, so the
+            # sums of weight products are exact) leaves nothing to normalise by: the sample
+            # must not come out finite
+            zero_norm = np.zeros(np.asarray(samples).shape, dtype=bool)
+            present = {k_ for k_, st in cfstate.items() if st is not None}
+            if "rr" in present:  # Landy-Szalay uses dd, dr, rr and rd when present
+                used = present
+            else:  # Davis-Peebles uses dd and ONE mixed term (rd if present, else dr)
+                used = {"dd", "rd" if "rd" in present else "dr"}
+            for k_, st in cfstate.items():
+                if st is not None and k_ in used:
+                    _, ws = orc.loo_sum(orc.weights_matrix(st["sw1"], st["sw2"], st["auto"]))
+                    zero_norm |= ws == 0.0
+            if case["scene"].get("w_kind", "dyadic") == "dyadic" and np.any(zero_norm & np.isfinite(np.asarray(g["samples"], dtype="f8"))):
+                k_, b_ = np.argwhere(zero_norm & np.isfinite(np.asarray(g["samples"], dtype="f8")))[0]
+                return (
+                    sig(f"{kind}.sample", "finite_sample_for_zero_normalisation"),
+                    f"{kind}[{i}].sample().samples[{k_},{b_}] = {np.asarray(g['samples'])[k_, b_]} although a leave-one-out "
+                    "sum of weight products of that sample and bin is exactly zero",
+                    probes,
+                )
+            if zero_norm.any():
+                probes["exactly_zero_leave_one_out_normalisation"] = 1
             if not orc.close_where_ref_finite(g["data"], data):
                 return sig(f"{kind}.sample", "value_wrong"), f"{kind}[{i}].sample().data {g['data']} != {data}", probes
             if not orc.close_where_ref_finite(g["samples"], samples):
